@@ -596,7 +596,9 @@ class NonlinearConstraints:
         )
 
     def violation(self, x, cub_val=None, ceq_val=None):
-        return np.concatenate([pc.violation(x) for pc in self.pcs])
+        if cub_val is None or ceq_val is None:
+            cub_val, ceq_val = self(x)
+        return np.concatenate((np.maximum(cub_val, 0.0), np.abs(ceq_val)))
 
 
 class Problem:
@@ -1190,6 +1192,8 @@ class Problem:
             lc = self.linear.violation(x)
             violation.append(lc)
         if len(self._nonlinear.pcs):
+            if cub_val is None or ceq_val is None:
+                cub_val, ceq_val = self._nonlinear(self.build_x(x))
             nlc = self._nonlinear.violation(x, cub_val, ceq_val)
             violation.append(nlc)
 
